@@ -36,7 +36,91 @@ pub uninterp spec fn w_is_type_hidden(tag: Tag) -> bool;
 pub uninterp spec fn w_noah(l: Seq<FormatEntry>, tag: Tag) -> Seq<FormatEntry>;
 pub uninterp spec fn w_clear_to_marker(l: Seq<FormatEntry>) -> Seq<FormatEntry>;
 pub uninterp spec fn w_enter_foreign(tb: TreeBuilder, tag: Tag, ns: Namespace) -> (TreeBuilder, ProcessResult);
-pub uninterp spec fn w_misnested_a(tb: TreeBuilder, tag: Tag) -> TreeBuilder;
+/// rule R36/R37: `self.active_formatting_end_to_marker().iter().find(|&(_, n, _)| self.html_elem_named(n, NAME)).map(|(_, n, _)| n.clone())`:
+/// from the end of the list down to (not including) the last marker, the first entry whose element is an HTML element of that name
+pub open spec fn fmt_elem_for(l: Seq<FormatEntry>, name: LocalName, n: int) -> Option<int>
+    decreases n
+{
+    if n <= 0 { None } else if l[n - 1] is Marker { None } else if html_named(l[n - 1]->Element_0, name) { Some(n - 1) } else { fmt_elem_for(l, name, n - 1) }
+}
+pub proof fn lemma_fmt_elem(l: Seq<FormatEntry>, name: LocalName, n: int)
+    requires 0 <= n <= l.len(),
+    ensures fmt_elem_for(l, name, n) matches Some(i) ==> 0 <= i < n && l[i] is Element && html_named(l[i]->Element_0, name),
+    decreases n,
+{
+    if n > 0 && !(l[n - 1] is Marker) && !html_named(l[n - 1]->Element_0, name) { lemma_fmt_elem(l, name, n - 1); }
+}
+/// (ASSUMED to be what the adaptor chain computes; the iterator's text is checked as in U-fmt)
+#[verifier::external_body]
+pub fn fmt_elem_named(l: &Vec<FormatEntry>, name: LocalName) -> (r: Option<Handle>)
+    ensures match fmt_elem_for(l@, name, l@.len() as int) { Some(i) => 0 <= i < l@.len() && l@[i] is Element && r == Some(l@[i]->Element_0), None => r is None },
+{ unimplemented!() }
+/// "if the list of active formatting elements contains an a element between the end of the list and the last marker ..: parse
+/// error; run the adoption agency algorithm for the token, then remove that element from the list of active formatting elements
+/// and the stack of open elements if the adoption agency algorithm didn't already remove it"
+pub open spec fn w_misnested(a: Aaa, name: LocalName, foster: bool) -> Aaa {
+    match fmt_elem_for(a.list, name, a.list.len() as int) {
+        None => a,
+        Some(i) => {
+            let node = a.list[i]->Element_0;
+            let v1 = w_aaa(erred_view(a), name, foster);
+            let l2 = match list_pos(v1.list, node) { Some(p) => v1.list.remove(p as int), None => v1.list };
+            let s2 = match seq_rposition(v1.stack, is_handle(node), v1.stack.len() as int) { Some(k) => v1.stack.remove(k as int), None => v1.stack };
+            Aaa { stack: s2, list: l2, ..v1 }
+        },
+    }
+}
+pub open spec fn erred_view(a: Aaa) -> Aaa { Aaa { errs: a.errs + 1, ..a } }
+pub open spec fn rpos_or0(s: Seq<Handle>, h: Handle) -> int { match seq_rposition(s, is_handle(h), s.len() as int) { Some(k) => k as int, None => 0int } }
+pub open spec fn lpos_or0(l: Seq<FormatEntry>, h: Handle) -> int { match list_pos(l, h) { Some(p) => p as int, None => 0int } }
+/// ASSUMED (not proved: it needs "no entry of the list is for a template element", which aaa_inv does not carry, and an induction
+/// over the whole adoption agency specification): the adoption agency algorithm does not put a template element on the stack
+#[verifier::external_body]
+pub proof fn axiom_aaa_no_new_templates(a: Aaa, subject: LocalName, foster: bool)
+    requires aaa_inv(a),
+    ensures count_templates(w_aaa(a, subject, foster).stack, w_aaa(a, subject, foster).stack.len() as int) <= count_templates(a.stack, a.stack.len() as int),
+{}
+/// removing one entry from the stack does not add a template
+pub proof fn lemma_count_remove(st: Seq<Handle>, k: int, n: int)
+    requires 0 <= k < st.len(), 0 <= n <= st.len() - 1,
+    ensures count_templates(st.remove(k), n) <= count_templates(st, n + 1),
+            n <= k ==> count_templates(st.remove(k), n) == count_templates(st, n),
+    decreases n,
+{
+    let r = st.remove(k);
+    if n > 0 {
+        lemma_count_remove(st, k, n - 1);
+        if n - 1 < k {
+            assert(r[n - 1] == st[n - 1]);
+            assert(count_templates(r, n) == count_templates(st, n));
+        } else {
+            assert(r[n - 1] == st[n]);
+            assert(count_templates(r, n) <= count_templates(st, n) + (if html_named(st[n], local_name!("template")) { 1int } else { 0int }));
+        }
+    }
+    assert(count_templates(st, n + 1) == count_templates(st, n) + (if html_named(st[n], local_name!("template")) { 1int } else { 0int }));
+}
+/// removing an element other than the root from the stack, and possibly one entry from the list, keeps the invariant
+pub proof fn lemma_inv_remove(a: Aaa, b: Aaa, k: int, drop: int)
+    requires aaa_inv(a), b.created == a.created,
+             b.stack == a.stack || (1 <= k < a.stack.len() && b.stack == a.stack.remove(k)),
+             b.list == a.list || (0 <= drop < a.list.len() && b.list == a.list.remove(drop)),
+    ensures aaa_inv(b),
+{
+    reveal(aaa_inv);
+    if b.stack != a.stack {
+        assert(b.stack[0] == a.stack[0]);
+        assert forall|i: int| 0 <= i < b.stack.len() implies (#[trigger] b.stack[i]).id@ < b.created by {
+            if i < k { assert(b.stack[i] == a.stack[i]); } else { assert(b.stack[i] == a.stack[i + 1]); }
+        }
+    }
+    if b.list != a.list {
+        assert forall|i: int| 0 <= i < b.list.len() && (#[trigger] b.list[i]) is Element implies b.list[i]->Element_0.id@ < b.created
+            && elem_name_of(b.list[i]->Element_0) == html_name(b.list[i]->Element_1.name) by {
+            if i < drop { assert(b.list[i] == a.list[i]); } else { assert(b.list[i] == a.list[i + 1]); }
+        }
+    }
+}
 impl TreeBuilder {
     /// is_type_hidden (ASSUMED: an uninterpreted function of the tag; the body compares the `type` attribute with "hidden")
     #[verifier::external_body]
@@ -61,15 +145,6 @@ impl TreeBuilder {
     pub fn clear_active_formatting_to_marker(&mut self)
         ensures final(self).same_but_stack_list(old(self)), final(self).stack() == old(self).stack(), final(self).sink == old(self).sink,
                 final(self).list() == w_clear_to_marker(old(self).list()),
-    { unimplemented!() }
-    /// handle_misnested_a_tags (ASSUMED: an uninterpreted state transformer - it runs the adoption agency algorithm for "a" and
-    /// removes the element from the list and the stack - that keeps the tree builder's invariants)
-    #[verifier::external_body]
-    pub fn handle_misnested_a_tags(&mut self, tag: &Tag)
-        requires aaa_inv(old(self).aaa_view()),
-        ensures *final(self) == w_misnested_a(*old(self), *tag), aaa_inv(final(self).aaa_view()),
-                final(self).template_modes == old(self).template_modes, final(self).context_elem == old(self).context_elem,
-                count_templates(final(self).stack(), final(self).stack().len() as int) <= count_templates(old(self).stack(), old(self).stack().len() as int),
     { unimplemented!() }
     /// enter_foreign (ASSUMED: an uninterpreted state transformer: adjust attributes, insert a foreign element)
     #[verifier::external_body]
